@@ -238,6 +238,22 @@ theorem get_path_mode (c : Ctx) (r x : String) (rest : List String) (k : Kind) (
 theorem glob_terminates (c : Ctx) (root : String) (k : Kind) : (globDecls c root k).isSome = true :=
   globDecls_isSome c root k
 
+/-- hence no `get_*` query ever answers the model's `.fuel` tag -/
+theorem get_never_out_of_fuel (c : Ctx) (ns : Ns) (k : Kind) (onlyCurrent glob keepNone : Bool) :
+    getDeclarations c ns k onlyCurrent glob keepNone ≠ .fuel := by
+  cases ns with
+  | nil => simp [getDeclarations]
+  | cons r rest =>
+    unfold getDeclarations
+    cases glob with
+    | true =>
+      have := glob_terminates c r k
+      cases hg : globDecls c r k with
+      | none => rw [hg] at this; cases this
+      | some d => simp [hg]
+    | false =>
+      by_cases h : (rest = [] || onlyCurrent) = true <;> simp [h]
+
 /-- the same for the walk of `get_namespaces_decls` -/
 theorem namespaces_decls_terminates (c : Ctx) (ns : Ns) (name : String) (k : Kind) (glob : Bool) :
     getNamespacesDecls c ns name k glob ≠ .fuel := by
